@@ -62,6 +62,11 @@ pub fn run(property: &str, tier: &str, replay: Option<Value>) -> ! {
     if let Some(case) = replay {
         rep.replay_mode = true;
         let case = if case.get("case").is_some() { case["case"].clone() } else { case };
+        if case["engine"].as_str() == Some("ewire") {
+            crate::enet::isolate_network();
+            crate::netrun::replay_one(&mut rep, &case, crate::checks::c13wire::run_case);
+            rep.finish();
+        }
         match replay_case(&case, &cfgs) {
             Ok(found) => {
                 for f in found {
@@ -214,6 +219,11 @@ pub fn run(property: &str, tier: &str, replay: Option<Value>) -> ! {
     rep.cov("long_lived_depth", ll.depth);
     rep.cov("long_lived_alphabet_ops", ll_alpha.ops.len() as u64);
     rep.cov("long_lived_rule", "every history of exactly long_lived_depth operations over a reduced alphabet (K1-K4, 2 clients, one named address, 2-3 ticks), from the empty store and the two-client deep root, executed on ONE Pool that is never reopened (state the Pool object carries between messages is invisible to the exact-state search, which rebuilds it at every transition); every step judged by the same oracles");
+    if property == "C13" {
+        // the server identifier while the interface's addresses change under the running service
+        let agg = crate::netrun::run_sharded(&mut rep, "C13", tier, crate::checks::c13wire::cases, 16);
+        rep.cov("wire_address_histories", json!({"histories": agg.stats_sum.get("wire4_histories").copied().unwrap_or(0.0) as u64, "discovers_sent": agg.stats_sum.get("wire4_discovers").copied().unwrap_or(0.0) as u64, "replies_judged": agg.stats_sum.get("wire4_replies").copied().unwrap_or(0.0) as u64, "rule": "the real DhcpService (port 67, real netlink-fed NetInfo) on a veth pair in a private network namespace; every sequence of IPv4 address events on the receiving interface (a second address of the same subnet, an address of a second configured subnet, the first address: added / removed with `ip addr`) of length 2 (thorough 4), two DISCOVER frames before the first and after every event: a reply identifies the server by, and is sent from, an address the interface has NOW, of the subnet it offers from"}));
+    }
     let mut probe_evals = 0u64;
     if property == "C13" {
         let (n, vs) = c13_probes(&cfgs, &stats, &alpha);
